@@ -1038,6 +1038,12 @@ def _int(ex, st, args, kwargs, node):
     v = args[0]
     if isinstance(v, (int, float)):
         return int(v)
+    if isinstance(v, str):
+        try:
+            return int(v)
+        except ValueError:
+            from .engine import _Raise, ExcV
+            raise _Raise(st, ExcV('ValueError', getattr(node, 'lineno', 0)))
     if is_sym(v):
         if z3.is_int(v):
             return v
